@@ -54,7 +54,8 @@ struct I2I {
         std::string cause = "";
         if constexpr (is_native_int_v<SRep>) {
             using PS = decltype(+std::declval<SRep>());
-            if (SE > DE && !fits<PS>(zs * zpow(radix, SE - DE))) cause = "shifted-source-exceeds-source-type/";
+            // (or the factor radix^(SE - DE) itself does not exist in that type: 10^14 as an int, even when the source is 0)
+            if (SE > DE && (!fits<PS>(zs * zpow(radix, SE - DE)) || !fits<PS>(zpow(radix, SE - DE)))) cause = "shifted-source-exceeds-source-type/";
         }
         o.region = cause;
         Src s = make_rep<Src>(zs);
